@@ -90,6 +90,9 @@ Section Lays.
   | sk_all_node s kids : P s -> Forall (sk_all P) kids -> sk_all P (SNode S s kids).
 End Lays.
 
+Fixpoint sk_map {A B : Type} (f : A -> B) (t : sk A) : sk B :=
+  match t with SNode _ s kids => SNode B (f s) (map (sk_map f) kids) end.
+
 (* rewriting the styles of a skeleton at the paths selected by `w` (root = []) *)
 Section MapFrom.
   Context {A B : Type}.
